@@ -44,10 +44,15 @@ def batch(call_ids: List[Any], doc: Any, strict: bool) -> Tuple[str, Any]:
         for b in range(a + 1, len(nonnull)):
             if typed_eq(nonnull[a], nonnull[b]):
                 return ('identity', 'duplicate')
+    missing = [c for c in call_ids if not any(typed_eq(c, i) for i in nonnull)]
+    extra = [i for i in nonnull if not any(typed_eq(c, i) for c in call_ids)]
     if len(nonnull) != len(ids):
-        return ('open', 'null-id-element')       # the statement does not say what a null-id element in an array means
-    missing = [c for c in call_ids if not any(typed_eq(c, i) for i in ids)]
-    extra = [i for i in ids if not any(typed_eq(c, i) for c in call_ids)]
+        # the statement does not say whom a null-id element in an array answers; what it does say is that a server
+        # error is raised to the caller: if every call is answered, the null-id elements must at least survive
+        if missing or extra:
+            return ('open', 'null-id-element-with-missing-or-unasked-ids')
+        nulls = [r for r in doc if r['id'] is None]
+        return ('accept-null', {'nulls': nulls, 'any_error': any('error' in r for r in doc)})
     if strict and (missing or extra):
         return ('identity', 'missing' if missing else 'unexpected')
     by_call: Dict[int, Any] = {}
